@@ -1,7 +1,7 @@
 (** C11 — Spatial vector functions satisfy their geometric definitions.
     Statements are in VekProofs.C11_spec; programs are regenerated from /repo by symx. *)
 From VekLib Require Import Ops ROps LinAlg RLin RSum.
-From VekProofs Require Import C11_spec C11_pb C11_wide C11_pd C11_pe C11_pf C11_pg.
+From VekProofs Require Import C11_spec C11_pb C11_wide C11_pd C11_pe C11_pf C11_pg C11_fl.
 
 Theorem C11_basic : C11_basic_stmt. Proof. exact C11_pb.C11_basic. Qed.
 Theorem C11_wide : C11_wide_stmt.   Proof. exact C11_wide.C11_wide. Qed.
@@ -12,6 +12,8 @@ Theorem C11_4d : C11_4d_stmt.       Proof. exact C11_pe.C11_4d. Qed.
 Theorem C11_slerp : C11_slerp_stmt. Proof. exact C11_pf.C11_slerp. Qed.
 Theorem C11_degrees : C11_degrees_stmt. Proof. exact C11_pd.C11_degrees. Qed.
 Theorem C11_slerp_clamped : C11_slerp_clamped_stmt. Proof. exact C11_pg.C11_slerp_clamped. Qed.
+(** float clause of normalisation under the rounded interpretation of lib/FlOps.v *)
+Theorem C11_float_normalized : C11_float_normalized_stmt. Proof. exact C11_fl.C11_float_normalized. Qed.
 
 Print Assumptions C11_basic.
 Print Assumptions C11_wide.
@@ -22,3 +24,4 @@ Print Assumptions C11_4d.
 Print Assumptions C11_slerp.
 Print Assumptions C11_slerp_clamped.
 Print Assumptions C11_degrees.
+Print Assumptions C11_float_normalized.
